@@ -746,6 +746,10 @@ theorem iter_range_equal_iff (l r : IterRange) :
 theorem math_int_range_count_eq (n : Nat) : mathIntRangeCount n = List.range n := by
   simp [mathIntRangeCount]
 
+/-- `math::int_range<A, B>` is `A, A+1, …, B-1` -/
+theorem math_int_range_eq (a b : Nat) : (mathIntRange a b).map (fun (n : Nat) => (n : Int)) = Spec.iota a (b - a) := by
+  rw [iota_eq_map_range]; simp [mathIntRange]
+
 /-! ## Non-vacuity: the hypotheses are met by concrete, non-trivial values; boundary behaviour on literals -/
 
 -- int8_t: the range ending at the type's maximum, and the inverted one
